@@ -10,7 +10,7 @@ inductive Expr (α : Type) where
   | not : Expr α → Expr α
   | and : List (Expr α) → Expr α
   | or : List (Expr α) → Expr α
-deriving Repr, Inhabited
+deriving Repr, Inhabited, BEq
 
 variable {α : Type}
 
